@@ -8,7 +8,9 @@ SPEC = {
     "rule": ("rapid-generated cells of the matrix provider kind {uri, uripost, raw, http/json lines, http/json array, grpc/json, "
              "http/scenario, grpc/scenario, generic json} x preload on/off (HTTP kinds) x limit 0..2E+1 x passes 0..3 x entries 1..5 x "
              "1-4 consumers x {drained directly, run inside the real engine with a counting gun}; providers are built through "
-             "config.DecodeAndValidate on a mem fs. Non-trivial = a bound is hit (X finite) and the cell is not plain streaming uri; "
+             "config.DecodeAndValidate on a mem fs. Unbounded cells (no limit, no passes) are cancelled 0-20 ms after the consumers took their last ammo, so that the provider has filled "
+             "its queue and is parked on the hand-over when the cancel arrives (generic json provider also with ammo-queue-size 1/4/64). "
+             "Non-trivial = a bound is hit (X finite) and the cell is not plain streaming uri; "
              "distinct = hash of the case. Every kind x bound-combination cell must occur (required classes)."),
     "required_classes": ['TestBounds/uri/limit_only', 'TestBounds/uri/passes_only', 'TestBounds/uri/both', 'TestBounds/uri/none', 'TestBounds/uripost/limit_only', 'TestBounds/uripost/passes_only', 'TestBounds/uripost/both', 'TestBounds/uripost/none', 'TestBounds/raw/limit_only', 'TestBounds/raw/passes_only', 'TestBounds/raw/both', 'TestBounds/raw/none', 'TestBounds/jsonline/limit_only', 'TestBounds/jsonline/passes_only', 'TestBounds/jsonline/both', 'TestBounds/jsonline/none', 'TestBounds/jsonarray/limit_only', 'TestBounds/jsonarray/passes_only', 'TestBounds/jsonarray/both', 'TestBounds/jsonarray/none', 'TestBounds/grpc/json/limit_only', 'TestBounds/grpc/json/passes_only', 'TestBounds/grpc/json/both', 'TestBounds/grpc/json/none', 'TestBounds/http/scenario/limit_only', 'TestBounds/http/scenario/passes_only', 'TestBounds/http/scenario/both', 'TestBounds/http/scenario/none', 'TestBounds/grpc/scenario/limit_only', 'TestBounds/grpc/scenario/passes_only', 'TestBounds/grpc/scenario/both', 'TestBounds/grpc/scenario/none', 'TestBounds/json/limit_only', 'TestBounds/json/passes_only', 'TestBounds/json/both', 'TestBounds/json/none'],
     "floors": {"TestBounds/preload": 0.15, "TestBounds/single_entry": 0.1, "TestBounds/through_engine": 0.2},
